@@ -683,9 +683,18 @@ pub enum TokRule {
     UnknownTypeName,
     UnusedPrivateFn,
     PubFnWithoutParams,
+    /// a public function without parameters that is called from main
+    CalledPubFnWithoutParams,
 }
 
-pub const TOK_RULES: [TokRule; 5] = [TokRule::UnknownField, TokRule::UnknownVariant, TokRule::UnknownTypeName, TokRule::UnusedPrivateFn, TokRule::PubFnWithoutParams];
+pub const TOK_RULES: [TokRule; 6] = [
+    TokRule::UnknownField,
+    TokRule::UnknownVariant,
+    TokRule::UnknownTypeName,
+    TokRule::UnusedPrivateFn,
+    TokRule::PubFnWithoutParams,
+    TokRule::CalledPubFnWithoutParams,
+];
 
 pub fn apply_tok(toks: &[String], defs: &Defs, rule: TokRule, target: usize) -> (Option<Vec<String>>, usize) {
     let is_ident = |t: &str| t.chars().next().map(|c| c.is_ascii_alphabetic() || c == '_').unwrap_or(false);
@@ -714,6 +723,14 @@ pub fn apply_tok(toks: &[String], defs: &Defs, rule: TokRule, target: usize) -> 
             }
         }
         TokRule::UnusedPrivateFn | TokRule::PubFnWithoutParams => sites.push(toks.len()),
+        TokRule::CalledPubFnWithoutParams => {
+            // the opening brace of main's body
+            if let Some(m) = (1..toks.len()).find(|i| toks[*i] == "main" && toks[*i - 1] == "fn") {
+                if let Some(b) = (m..toks.len()).find(|i| toks[*i] == "{") {
+                    sites.push(b);
+                }
+            }
+        }
     }
     if target >= sites.len() {
         return (None, sites.len());
@@ -729,6 +746,14 @@ pub fn apply_tok(toks: &[String], defs: &Defs, rule: TokRule, target: usize) -> 
             }
         }
         TokRule::PubFnWithoutParams => {
+            for t in ["pub", "fn", "noparams_zz", "(", ")", "->", "u8", "{", "1u8", "}"] {
+                out.push(t.into());
+            }
+        }
+        TokRule::CalledPubFnWithoutParams => {
+            let at = sites[target] + 1;
+            let call: Vec<String> = ["let", "_", ":", "u8", "=", "noparams_zz", "(", ")", ";"].iter().map(|t| t.to_string()).collect();
+            out.splice(at..at, call);
             for t in ["pub", "fn", "noparams_zz", "(", ")", "->", "u8", "{", "1u8", "}"] {
                 out.push(t.into());
             }
